@@ -320,8 +320,18 @@ Fixpoint run_batches (f : agg) (m : mode) (g : option st) (bs : list (list cell)
    ShId   agg(x)        bare column: the field reads the column (MCol)
    ShPath agg(n.v)      nested path: registered as an expression (stream/processor_data.go
                         evaluateNestedFieldExpression); a missing path evaluates to NULL
-   ShAdd1 agg(x + 1), ShMul2 agg(x * 2): arithmetic over a numeric column; NULL/missing operand gives NULL *)
-Inductive shape := ShId | ShPath | ShAdd1 | ShMul2.
+   ShAdd1 agg(x + 1), ShMul2 agg(x * 2): arithmetic over a numeric column; NULL/missing operand gives NULL
+   ShAff op k           agg(<col> <op> <k>) (or <k> <op> <col>): col = x or the nested path d.x, k a numeric literal
+                        written as an integer or with a decimal point.  The Go TYPE of the resulting number is not
+                        modelled: stream/processor_data.go evaluateExpressionForAggregation hands an argument whose
+                        text contains '.' (nested path, decimal literal) to the hand-written engine (every number a
+                        float64) and any other to the expr-lang bridge (int op int stays an int), and two-argument
+                        aggregates take yet another route; ShAff yields the number as VFlt and the driver compares
+                        the numbers of such calls by value. *)
+Inductive aop := OAdd | OSub | OMul.
+Definition aop_q (op : aop) (a k : Q) : Q :=
+  match op with OAdd => qadd a k | OSub => qsub a k | OMul => qmul a k end.
+Inductive shape := ShId | ShPath | ShAdd1 | ShMul2 | ShAff (op : aop) (k : Q).
 Definition eval_arg (sh : shape) (c : cell) : cell :=
   match sh with
   | ShId => c
@@ -338,10 +348,16 @@ Definition eval_arg (sh : shape) (c : cell) : cell :=
       | Cell (VFlt q) => Cell (VFlt (qmul q 2))
       | _ => Cell VNull
       end
+  | ShAff op k =>
+      match c with
+      | Cell (VInt z) => Cell (VFlt (aop_q op (inject_Z z) k))
+      | Cell (VFlt q) => Cell (VFlt (aop_q op q k))
+      | _ => Cell VNull
+      end
   end.
 Definition sql_mode (sh : shape) : mode := match sh with ShId => MCol | _ => MExpr end.
 Definition two_args (f : agg) : bool := match f with APercentile _ | ANth _ => true | _ => false end.
-Definition arithmetic (sh : shape) : bool := match sh with ShAdd1 | ShMul2 => true | _ => false end.
+Definition arithmetic (sh : shape) : bool := match sh with ShAdd1 | ShMul2 | ShAff _ _ => true | _ => false end.
 (* what the field's evaluator yields for the rows of a batch: the argument expression evaluated per row. *)
 Definition sql_cells (sh : shape) (f : agg) (cells : list cell) : list cell := map (eval_arg sh) cells.
 (* as found on the pinned commit (repaired by the F10b fix, recorded as F22): for a two-argument aggregate with an
@@ -349,3 +365,33 @@ Definition sql_cells (sh : shape) (f : agg) (cells : list cell) : list cell := m
    text "x * 2, 0.5" as the expression; its evaluation failed on every row, so nothing reached the aggregator. *)
 Definition sql_cells_asis (sh : shape) (f : agg) (cells : list cell) : list cell :=
   if two_args f && arithmetic sh then map (fun _ => Missing) cells else map (eval_arg sh) cells.
+
+(* ---------- a select list: several aggregate calls of one query, each with ITS OWN argument ----------
+   stream/processor_data.go registerExpressionCalculator registers one evaluator per output alias (the closure
+   captures that call's FieldExpression); aggregator/group_aggregator.go GroupAggregator.Add walks, for every row,
+   over every aggregation field: evaluator of the field's alias -> front end (feed) -> the field's own aggregator
+   object of the group.  GetResults reads every field's object; Reset drops the groups.
+   One state per field, in select-list order. *)
+Definition sfield := (agg * mode * shape)%type.
+Fixpoint sel_add (fs : list sfield) (gs : list (option st)) (c : cell) : list (option st) :=
+  match fs, gs with
+  | (f, m, sh) :: fs', g :: gs' => ga_add f m g (eval_arg sh c) :: sel_add fs' gs' c
+  | _, _ => []
+  end.
+Fixpoint sel_results (fs : list sfield) (gs : list (option st)) : list (option res) :=
+  match fs, gs with
+  | (f, _, _) :: fs', g :: gs' => ga_results f g :: sel_results fs' gs'
+  | _, _ => []
+  end.
+Definition sel_init (fs : list sfield) : list (option st) := map (fun _ => None) fs.
+(* processWindowBatch for one batch, from the state after Reset *)
+Definition sel_batch (fs : list sfield) (cells : list cell) : list (option res) :=
+  sel_results fs (fold_left (sel_add fs) cells (sel_init fs)).
+(* consecutive batches on one query instance: per batch the result of every field, in select-list order *)
+Fixpoint sel_run (fs : list sfield) (gs : list (option st)) (bs : list (list cell)) : list (list (option res)) :=
+  match bs with
+  | [] => []
+  | b :: bs' =>
+      let g1 := fold_left (sel_add fs) b gs in
+      sel_results fs g1 :: sel_run fs (sel_init fs) bs'          (* Reset *)
+  end.
